@@ -328,3 +328,69 @@ func verifH_C05_deepobject_related_names() {
 	}
 	verifReach("end")
 }
+
+//verif:harness id=C05 tier=quick,thorough witness=end bounds="array parameters whose items schema is a composition: allOf [typed, constraint-only] in either order, allOf [typed, typed], anyOf [typed]; query form exploded / not exploded and header; item type in {integer, boolean, string}; 1-2 items of one symbolic printable byte each: every item decodes to its typed value, in order; an item that is not of the type is an error"
+func verifH_C05_array_item_compositions() {
+	typ := []string{"integer", "boolean", "string"}[verifChoose("type", 3)]
+	typed := verifPrimSchema(typ)
+	untyped := &openapi3.SchemaRef{Value: &openapi3.Schema{Description: "a constraint-only branch"}}
+	var items *openapi3.SchemaRef
+	switch verifChoose("comp", 4) {
+	case 0:
+		items = &openapi3.SchemaRef{Value: &openapi3.Schema{AllOf: openapi3.SchemaRefs{typed, untyped}}}
+	case 1:
+		items = &openapi3.SchemaRef{Value: &openapi3.Schema{AllOf: openapi3.SchemaRefs{untyped, typed}}}
+	case 2:
+		items = &openapi3.SchemaRef{Value: &openapi3.Schema{AllOf: openapi3.SchemaRefs{typed, verifPrimSchema(typ)}}}
+	case 3:
+		items = &openapi3.SchemaRef{Value: &openapi3.Schema{AnyOf: openapi3.SchemaRefs{typed}}}
+	}
+	schema := &openapi3.SchemaRef{Value: &openapi3.Schema{Type: &openapi3.Types{"array"}, Items: items}}
+	n := 1 + verifChoose("n", 2)
+	texts := make([]string, n)
+	want := make([]any, n)
+	allOK := true
+	for i := range texts {
+		if typ == "boolean" {
+			texts[i] = []string{"true", "false", "x"}[verifChoose("b", 3)]
+		} else {
+			texts[i] = verifLeaf("v", 1, ",=;&")
+		}
+		v, ok := verifTyped(texts[i], typ)
+		if !ok {
+			allOK = false
+		}
+		want[i] = v
+	}
+	input := &RequestValidationInput{Request: &http.Request{Header: http.Header{}, URL: &url.URL{}}}
+	var param *openapi3.Parameter
+	t, f := true, false
+	switch verifChoose("in", 3) {
+	case 0:
+		param = &openapi3.Parameter{Name: "p", In: "query", Explode: &t, Schema: schema}
+		input.QueryParams = url.Values{"p": texts}
+	case 1:
+		param = &openapi3.Parameter{Name: "p", In: "query", Explode: &f, Schema: schema}
+		input.QueryParams = url.Values{"p": []string{verifJoin(texts, ",")}}
+	default:
+		param = &openapi3.Parameter{Name: "X-P", In: "header", Schema: schema}
+		input.Request.Header["X-P"] = []string{verifJoin(texts, ",")}
+	}
+	// known finding: outside the query the item parser knows typed item schemas only
+	verifKnown("C05-composed-items-outside-query", param.In == "header")
+	got, found, err := decodeStyledParameter(param, input)
+	if !allOK {
+		verifAssert(err != nil || got == nil, "C05 array item compositions: an item that is not a serialisation of the item type is not decoded to a value")
+		verifReach("end")
+		return
+	}
+	verifAssert(err == nil && found, "C05 array item compositions: a well-formed array decodes and is found")
+	arr, ok := got.([]any)
+	verifAssert(ok && len(arr) == n, "C05 array item compositions: one item per serialised item")
+	if ok && len(arr) == n {
+		for i := range arr {
+			verifAssert(verifSame(arr[i], want[i]), "C05 array item compositions: each item decodes to its typed value, in order")
+		}
+	}
+	verifReach("end")
+}
